@@ -9,7 +9,7 @@
 //! "message alone vs in sequence"; (3) unit ordering and Pending independence.
 
 use mc::exec::{self, Pattern};
-use mc::ifaces::{Main, MAIN_SPEC};
+use mc::ifaces::{Main, Opt, MAIN_SPEC, OPT_SPEC};
 use mc::log::{self, K};
 use mc::par;
 use mc::runx::{self, run_on, End};
@@ -19,18 +19,44 @@ use mc::wr::RecW;
 use serde_json::{json, Value as J};
 use std::time::Instant;
 
-const UNITS: &[&str] = &[
+const UNITS_MAIN: &[&str] = &[
     "A", "A?", "E", "B?", "*R", "*A?", "A:B", "A:E", "A:A", "A:A:A", "A:D?", "A:Y", "B", ":A", ":E", ":A:B", ":A:E",
     ":A:A", ":A:A:A", ":B?",
 ];
 
-fn run_obs(input: &[u8], pat: Pattern) -> (runx::RunOut, Obs) {
+const UNITS_OPT: &[&str] = &[
+    "B", "A:B", "B:E", "A:B:E", "E", "A:E", "A:A", "E:B:A?", "E:A?", "B:B", "B:A:B", "*R", "A", ":B", ":E", ":A:B:E",
+    ":E:A?", ":B:A:B", "A?",
+];
+
+fn run_main(input: &[u8], pat: Pattern) -> (runx::RunOut, Obs) {
     let mut m = Main;
     let mut w = RecW::unbounded();
     let o = run_on(&mut m, input, &mut w, pat);
     let obs = log::with(|l| Obs::from_log(l, K::WBytes));
     (o, obs)
 }
+
+fn run_opt(input: &[u8], pat: Pattern) -> (runx::RunOut, Obs) {
+    let mut m = Opt;
+    let mut w = RecW::unbounded();
+    let o = run_on(&mut m, input, &mut w, pat);
+    let obs = log::with(|l| Obs::from_log(l, K::WBytes));
+    (o, obs)
+}
+
+/// One declared tree with its specification table and unit alphabet.
+struct Tree {
+    name: &'static str,
+    spec: &'static [mc::spec::msg::H],
+    units: &'static [&'static str],
+    run: fn(&[u8], Pattern) -> (runx::RunOut, Obs),
+}
+
+const TREES: &[Tree] = &[
+    Tree { name: "Main", spec: MAIN_SPEC, units: UNITS_MAIN, run: run_main },
+    Tree { name: "Opt", spec: OPT_SPEC, units: UNITS_OPT, run: run_opt },
+];
 
 /// merged sequence of call / error events
 fn call_err_seq(l: &log::Log) -> Vec<(K, Vec<u8>)> {
@@ -78,6 +104,7 @@ fn ordering_ok(l: &log::Log) -> Result<(), String> {
 
 struct Ctx {
     iface: Iface,
+    tree: &'static Tree,
 }
 
 #[derive(Default)]
@@ -91,8 +118,8 @@ struct St {
     distinct: Distinct,
 }
 
-fn describe(buf: &[u8]) -> J {
-    json!({"input": hex(buf)})
+fn describe(cx: &Ctx, buf: &[u8]) -> J {
+    json!({"tree": cx.tree.name, "input": hex(buf)})
 }
 
 /// Features of a buffer for grouping: what precedes the diverging message.
@@ -148,7 +175,7 @@ fn check_buffer(cx: &Ctx, st: &mut St, msgs: &[Msg], with_pending: bool) {
         }
     }
     // execution
-    let (o, obs) = run_obs(&buf, Pattern::NONE);
+    let (o, obs) = (cx.tree.run)(&buf, Pattern::NONE);
     st.execs += 1;
     let leaves = exec::leaves();
     if o.end != End::Returned {
@@ -171,7 +198,7 @@ fn check_buffer(cx: &Ctx, st: &mut St, msgs: &[Msg], with_pending: bool) {
                         m.render(&mut b);
                         f.push(&msg::msg_effect(&cx.iface, m).pre);
                     }
-                    let (_, ob) = run_obs(&b, Pattern::NONE);
+                    let (_, ob) = (cx.tree.run)(&b, Pattern::NONE);
                     if !flat_admits(&f, &ob) {
                         upto = k - 1;
                         break;
@@ -181,7 +208,7 @@ fn check_buffer(cx: &Ctx, st: &mut St, msgs: &[Msg], with_pending: bool) {
                 feat.push(("kind", "handlers-differ-from-path-rule".into()));
                 st.groups.add("spec", &feat, (buf.len(), &buf), || {
                     (
-                        describe(&buf),
+                        describe(cx, &buf),
                         format!(
                             "run(\"{}\"): expected {} ; observed {}",
                             show(&buf),
@@ -194,7 +221,7 @@ fn check_buffer(cx: &Ctx, st: &mut St, msgs: &[Msg], with_pending: bool) {
             if let Err(why) = &order {
                 let feat = vec![("kind", "unit-ordering".to_string())];
                 st.groups.add("ordering", &feat, (buf.len(), &buf), || {
-                    (describe(&buf), format!("run(\"{}\"): {why}", show(&buf)))
+                    (describe(cx, &buf), format!("run(\"{}\"): {why}", show(&buf)))
                 });
             }
         }
@@ -211,7 +238,7 @@ fn check_buffer(cx: &Ctx, st: &mut St, msgs: &[Msg], with_pending: bool) {
                 feat.push(("kind", "prefix-up-to-first-fault-differs".into()));
                 st.groups.add("spec", &feat, (buf.len(), &buf), || {
                     (
-                        describe(&buf),
+                        describe(cx, &buf),
                         format!(
                             "run(\"{}\"): expected calls/errors up to the first faulty unit {:?} ; observed {}",
                             show(&buf),
@@ -231,7 +258,7 @@ fn check_buffer(cx: &Ctx, st: &mut St, msgs: &[Msg], with_pending: bool) {
     if msgs.len() > 1 {
         let mut cat = Obs::default();
         for m in msgs {
-            let (_, ob) = run_obs(&m.bytes(), Pattern::NONE);
+            let (_, ob) = (cx.tree.run)(&m.bytes(), Pattern::NONE);
             st.execs += 1;
             cat.append(&ob);
         }
@@ -239,7 +266,7 @@ fn check_buffer(cx: &Ctx, st: &mut St, msgs: &[Msg], with_pending: bool) {
             let feat = vec![("kind", "alone-vs-sequence".to_string())];
             st.groups.add("differential", &feat, (buf.len(), &buf), || {
                 (
-                    describe(&buf),
+                    describe(cx, &buf),
                     format!(
                         "run(\"{}\") observed {} but the messages one at a time give {}",
                         show(&buf),
@@ -254,7 +281,7 @@ fn check_buffer(cx: &Ctx, st: &mut St, msgs: &[Msg], with_pending: bool) {
     if with_pending && fault_msg.is_none() {
         let reference = full_digest;
         let try_pat = |p: Pattern, st: &mut St| {
-            let (o2, _) = run_obs(&buf, p);
+            let (o2, _) = (cx.tree.run)(&buf, p);
             st.execs += 1;
             st.pending_runs += 1;
             let d = log::with(|l| l.digest(&[K::Enter, K::Exit, K::Err, K::WBytes, K::WFlush]));
@@ -262,7 +289,7 @@ fn check_buffer(cx: &Ctx, st: &mut St, msgs: &[Msg], with_pending: bool) {
                 let feat = vec![("kind", "depends-on-pending-pattern".to_string())];
                 st.groups.add("pending", &feat, (buf.len(), &buf), || {
                     (
-                        json!({"input": hex(&buf), "pattern": p.to_json()}),
+                        json!({"tree": cx.tree.name, "input": hex(&buf), "pattern": p.to_json()}),
                         format!("run(\"{}\") with Pending pattern {:?}: events differ from the run without suspension", show(&buf), p.to_json()),
                     )
                 });
@@ -288,13 +315,14 @@ fn replay(path: &str) -> ! {
     println!("replay (oracle {oracle}): run(\"{}\") pattern {:?}", show(&input), pat.to_json());
     // The replay re-executes the case and prints the observation; the verdict
     // is recomputed by re-running the checker on the single buffer.
-    let cx = Ctx { iface: Iface::new(MAIN_SPEC) };
-    let msgs = parse_back(&input);
+    let tree = TREES.iter().find(|t| Some(t.name) == w["tree"].as_str()).unwrap_or(&TREES[0]);
+    let cx = Ctx { iface: Iface::new(tree.spec), tree };
+    let msgs = parse_back(tree, &input);
     let mut bad = [false; 2];
     for r in 0..2 {
         let mut st = St::default();
         check_buffer(&cx, &mut st, &msgs, true);
-        let (_, obs) = run_obs(&input, pat);
+        let (_, obs) = (tree.run)(&input, pat);
         println!("round {r}: observed {}", obs.show());
         for g in st.groups.map.values() {
             println!("round {r}: {}", g.1.desc);
@@ -311,7 +339,7 @@ fn replay(path: &str) -> ! {
 
 /// Re-parses a rendered buffer of this check's own messages (unit alphabet is
 /// argument-free, so splitting at newline / ';' is exact).
-fn parse_back(buf: &[u8]) -> Vec<Msg> {
+fn parse_back(tree: &Tree, buf: &[u8]) -> Vec<Msg> {
     let text = String::from_utf8(buf.to_vec()).unwrap();
     let mut out = vec![];
     for line in text.split_terminator('\n') {
@@ -322,7 +350,7 @@ fn parse_back(buf: &[u8]) -> Vec<Msg> {
         let units: Vec<Unit> = if line.is_empty() {
             vec![]
         } else {
-            line.split(';').map(|u| Unit::hdr(UNITS.iter().find(|x| **x == u).expect("unit of the alphabet"))).collect()
+            line.split(';').map(|u| Unit::hdr(tree.units.iter().find(|x| **x == u).expect("unit of the alphabet"))).collect()
         };
         out.push(Msg { units, trailing_semicolon: trailing, blank });
     }
@@ -337,49 +365,46 @@ fn main() {
     }
     let t0 = Instant::now();
     let thorough = args.thorough();
-    let cx = Ctx { iface: Iface::new(MAIN_SPEC) };
-    let units: Vec<Unit> = UNITS.iter().map(|u| Unit::hdr(u)).collect();
-    let nu = units.len();
+    let mut out = Outcome::new("C02");
+    let mut tot = St::default();
+    let mut per_tree = vec![];
+    for tree in TREES {
+        let cx = Ctx { iface: Iface::new(tree.spec), tree };
+        let units: Vec<Unit> = tree.units.iter().map(|u| Unit::hdr(u)).collect();
+        let nu = units.len();
 
-    // single messages of <= k units (with Pending patterns on those of <= 3)
-    let k = if thorough { 4 } else { 3 };
-    let mut singles: Vec<Msg> = vec![];
-    for len in 1..=k {
-        mc::util::product(nu, len, |idx| {
-            singles.push(Msg::of(idx.iter().map(|&i| units[i].clone()).collect()));
-        });
-    }
-    // message alphabet for histories
-    let mut alpha: Vec<Msg> = vec![
-        Msg { units: vec![], trailing_semicolon: false, blank: false },
-        Msg { units: vec![], trailing_semicolon: false, blank: true },
-    ];
-    let hist_units = 2;
-    for m in singles.iter().filter(|m| m.units.len() <= hist_units) {
-        alpha.push(m.clone());
-        let mut t = m.clone();
-        t.trailing_semicolon = true;
-        alpha.push(t);
-    }
-    // thorough histories of 3 use the messages of one unit (+ specials) only
-    let alpha1: Vec<Msg> = alpha.iter().filter(|m| m.units.len() <= 1).cloned().collect();
+        // single messages of <= k units (with Pending patterns on those of <= 3)
+        let k = if thorough { 4 } else { 3 };
+        let mut singles: Vec<Msg> = vec![];
+        for len in 1..=k {
+            mc::util::product(nu, len, |idx| {
+                singles.push(Msg::of(idx.iter().map(|&i| units[i].clone()).collect()));
+            });
+        }
+        // message alphabet for histories
+        let mut alpha: Vec<Msg> = vec![
+            Msg { units: vec![], trailing_semicolon: false, blank: false },
+            Msg { units: vec![], trailing_semicolon: false, blank: true },
+        ];
+        for m in singles.iter().filter(|m| m.units.len() <= 2) {
+            alpha.push(m.clone());
+            let mut t = m.clone();
+            t.trailing_semicolon = true;
+            alpha.push(t);
+        }
+        // histories of three messages: first and last message of <=1 unit (+ specials), any middle one
+        let alpha1: Vec<Msg> = alpha.iter().filter(|m| m.units.len() <= 1).cloned().collect();
 
-    let singles_ref = &singles;
-    let alpha_ref = &alpha;
-    let alpha1_ref = &alpha1;
-    let cxr = &cx;
-    let na = alpha.len();
-    let n1 = alpha1.len();
-    // partitions: singles in blocks of 256; histories of 2 by first message; histories of 3 by first message
-    let single_parts = singles.len().div_ceil(256);
-    let hist3_parts = if thorough { n1 } else { 0 };
-    let n_parts = single_parts + na + hist3_parts;
-    let res = par::run_simple(
-        n_parts,
-        args.threads,
-        args.seed,
-        St::default,
-        |st, p| {
+        let singles_ref = &singles;
+        let alpha_ref = &alpha;
+        let alpha1_ref = &alpha1;
+        let cxr = &cx;
+        let na = alpha.len();
+        let n1 = alpha1.len();
+        let single_parts = singles.len().div_ceil(256);
+        let hist3_parts = if thorough { n1 } else { 0 };
+        let n_parts = single_parts + na + hist3_parts;
+        let res = par::run_simple(n_parts, args.threads, args.seed, St::default, |st, p| {
             if p < single_parts {
                 for m in singles_ref[p * 256..].iter().take(256) {
                     let pend = m.units.len() <= 3;
@@ -398,18 +423,21 @@ fn main() {
                     }
                 }
             }
-        },
-    );
-    let mut out = Outcome::new("C02");
-    let mut tot = St::default();
-    for s in res {
-        out.groups.merge(s.groups);
-        tot.buffers += s.buffers;
-        tot.execs += s.execs;
-        tot.nonroot_relative += s.nonroot_relative;
-        tot.context_undefined += s.context_undefined;
-        tot.pending_runs += s.pending_runs;
-        tot.distinct.merge(s.distinct);
+        });
+        let before = (tot.buffers, tot.execs);
+        for s in res {
+            out.groups.merge(s.groups);
+            tot.buffers += s.buffers;
+            tot.execs += s.execs;
+            tot.nonroot_relative += s.nonroot_relative;
+            tot.context_undefined += s.context_undefined;
+            tot.pending_runs += s.pending_runs;
+            tot.distinct.merge(s.distinct);
+        }
+        per_tree.push(json!({"tree": tree.name, "declarations": tree.spec.iter().map(|h| h.decl).collect::<Vec<_>>(), "unit_alphabet": tree.units,
+            "max_units_per_message": k, "single_messages": singles.len(), "history_alphabet": na,
+            "histories": {"two_messages": na * na, "three_messages": hist3_parts * na * n1},
+            "buffers": tot.buffers - before.0, "executions": tot.execs - before.1}));
     }
     out.cov("states", tot.buffers);
     out.cov("transitions", tot.execs);
@@ -426,10 +454,7 @@ fn main() {
     );
     out.cov(
         "bounds",
-        json!({"tree": "Main (A at three levels, B/E at two)", "unit_alphabet": UNITS, "max_units_per_message": k,
-               "single_messages": singles.len(), "history_alphabet": na,
-               "histories": {"two_messages": na * na, "three_messages": hist3_parts * na * n1},
-               "pending_deviation_bound": 2, "pending_runs": tot.pending_runs}),
+        json!({"trees": per_tree, "pending_deviation_bound": 2, "pending_runs": tot.pending_runs}),
     );
     out.cov(
         "non_vacuity",
@@ -439,11 +464,11 @@ fn main() {
     out.cov(
         "samples",
         json!(["A:B;E;A\\n (E resolves to A:E, A to A:A)", "A:B;\\nE\\n (path must be reset by the terminator)",
-               "A:A;A;A:A\\n", "*R;:A:B;*A?;E\\n"]),
+               "A:A;A;A:A\\n", "*R;:A:B;*A?;E\\n", "Opt: B:E;E\\n (E resolves to B:E through the omitted optional node)", "Opt: E:A?;A?;:B:A:B;B\\n"]),
     );
     out.assumptions = vec![
         "expected handlers come from the text-level path rule (spec::msg) and header matching (spec::header)".into(),
-        "what happens after the first faulty unit of a buffer is left to C06".into(),
+        "within a buffer the specification is compared up to the first faulty unit; the alone-vs-sequence differential covers every buffer".into(),
     ];
     out.wall_s = t0.elapsed().as_secs_f64();
     out.write(&args);
